@@ -234,7 +234,13 @@ class WAUROC(_Win):
         n = rng.randint(1, 2 * N + 1)                  # batches of one ... larger than the window
         lo = 0 if cfg.get("zeros") else 1
         mode, w = self.gen_w(rng, cfg, n, T)
-        return {"x": [grid(rng, n, 8, lo, 8) for _ in range(T)],
+        xs = [grid(rng, n, 8, lo, 8) for _ in range(T)]
+        if cfg.get("zeros"):                            # zero-heavy: whole columns of zero scores
+            for i in range(n):
+                if rng.random() < 0.3:
+                    for r in xs:
+                        r[i] = F(0)
+        return {"x": xs,
                 "y": [self.gen_y(rng, n) for _ in range(T)], "w": w, "wmode": mode}
 
     def args(self, cfg, b):
